@@ -21,7 +21,7 @@ Next ==
      ELSE IF e.e = "sink.begin" THEN
         \* directed "stopgrace": a sink stays blocked beyond the grace period and is abandoned by Stop; what the abandoned
         \* goroutine does once the sink is released is not judged (only: Stop returned within its grace period, no deadlock)
-        /\ IF stopReturned /\ cfg.directed \notin {"stopgrace", "stopgrace2"} THEN Reject("sink_invoked_after_stop_returned") ELSE UNCHANGED dead
+        /\ IF stopReturned /\ cfg.directed \notin {"stopgrace", "stopgrace2", "syncgrace"} THEN Reject("sink_invoked_after_stop_returned") ELSE UNCHANGED dead
         /\ flushSeen' = (flushSeen \/ (stopCalled /\ ~stopReturned))
         /\ UNCHANGED <<cfg, stopCalled, stopReturned>>
      ELSE IF e.e = "stop.call" THEN stopCalled' = TRUE /\ UNCHANGED <<cfg, stopReturned, flushSeen, dead>>
